@@ -32,11 +32,19 @@ def main():
             res = dict(rc=None, violations=0, first=[], tail=[str(e)])
         res["wall_s"] = round(time.time() - t0, 1)
         res["caught"] = res["rc"] == 1 and res["violations"] > 0
+        # several sweeps may run side by side (disjoint prefixes): merge under a lock instead of overwriting
+        import fcntl
+        lock = open(rp + ".lock", "w")
+        fcntl.flock(lock, fcntl.LOCK_EX)
+        if os.path.exists(rp):
+            results = json.load(open(rp))
         results[name] = dict(property=pid, **res)
         meta["sweep"] = dict(check=pid, tier="quick", seed=os.environ.get("VERIF_SEED", "0"), caught=res["caught"],
                              violations=res["violations"], first=res["first"][:1])
         json.dump(meta, open(os.path.join(d, "meta.json"), "w"), indent=1)
         json.dump(results, open(rp, "w"), indent=1)
+        fcntl.flock(lock, fcntl.LOCK_UN)
+        lock.close()
         print(name, pid, "CAUGHT" if res["caught"] else "MISSED rc=%s" % res["rc"], res["violations"], res["wall_s"], flush=True)
     missed = [n for n, r in results.items() if not r["caught"]]
     print("missed:", missed)
